@@ -47,6 +47,13 @@ def build(tier, rnd):
         for i in range(5000):
             st = g.statement(rnd.choice([2, 3, 3, 4]))
             out.append((("random", i), st, ["ansi", alld[i % len(alld)], alld[(i * 7 + 3) % len(alld)]]))
+    # statement kinds that only some dialects accept are always shown to dialects that do
+    g2 = sqlgen.Gen(random.Random(99))
+    for i in range(6):
+        out.append((("copy", i), g2.statement(0, kinds=["copy"]), ["postgres", "redshift", "snowflake"]))
+        out.append((("update_from", i), g2.statement(1, kinds=["update_from"]), ["postgres", "ansi", "tsql"]))
+        out.append((("merge", i), g2.statement(1, kinds=["merge"]), ["ansi", "snowflake", "bigquery"]))
+        out.append((("create_like", i), g2.statement(0, kinds=["create_like"]), ["mysql", "sparksql", "hive"]))
     return out
 
 
@@ -126,7 +133,7 @@ def run(tier):
                 rejected[d] = rejected.get(d, 0) + 1
                 run_.case()
                 continue
-            if et == "UnsupportedStatementException" and st.kind in SUPPORTED_KINDS:
+            if et == "UnsupportedStatementException" and (st.kind in SUPPORTED_KINDS or st.kind in ("delete", "delete_sub", "truncate", "use")):
                 run_.case(evidence.sha((case["sql"], d)), nontrivial=True)
                 run_.judge(b, "supported_kind_reported_unsupported", r["outcome"]["message"], kf_id=DIALECT.get(f"{d}:{st.kind}:unsupported"))
                 continue
